@@ -1,3 +1,245 @@
-import CLModel.Model.Registry
+import CLModel.Proofs.Witness
+import CLModel.Props.C08
+import Mathlib.Algebra.BigOperators.Ring.Finset
+import Mathlib.Tactic.LinearCombination
+/-!
+# C09 — Witnesses are valid exactly for non-revoked indices
+
+Exponent form: the public check `e(g_i, acc) / e(g, ω) = z` reads
+`γ^i · acc − ω = γ^(L+1)` (all three pairings are `e(g,g')` to these exponents, and
+`z = e(g,g')^(γ^(L+1))`).  `witOf γ L i V = Σ_{j ∈ V, j ≠ i} γ^(L+1-j+i)`.
+All theorems: every commutative ring, every `γ`, every `L` with `2L+1 < 2^32`, both
+overflow modes, index sets of any size.
+-/
 namespace CL.C09
+open CL CL.Reg Finset
+
+variable {F : Type} [CommRing F]
+
+/-- **the accumulator check holds exactly for valid indices**: for the witness value `witOf`,
+`γ^i · acc − ω` is `γ^(L+1)` when `i ∈ V` and `0` when it is not. -/
+theorem witness_check_iff (γ : F) (L i : ℕ) (hi : InRange L i) (V : Finset ℕ) :
+    γ ^ i * accOf γ L V - witOf γ L i V = if i ∈ V then γ ^ (L + 1) else 0 := by
+  have hmul : γ ^ i * accOf γ L V = ∑ j ∈ V, γ ^ (L + 1 - j + i) := by
+    unfold accOf
+    rw [Finset.mul_sum]
+    apply Finset.sum_congr rfl
+    intro j _
+    rw [← pow_add]; congr 1; omega
+  rw [hmul]
+  unfold witOf
+  by_cases h : i ∈ V
+  · rw [← Finset.sum_erase_add V _ h]
+    have : L + 1 - i + i = L + 1 := by unfold InRange at hi; omega
+    simp [h, this]
+  · rw [Finset.erase_eq_of_notMem h]
+    simp [h]
+
+/-- consequently a revoked (or never issued) index fails the check at every state, as long as
+`z ≠ 1`, i.e. `γ^(L+1) ≠ 0` in the exponent (hypothesis evaluated on each run's keys) -/
+theorem revoked_fails_check (γ : F) (L i : ℕ) (hi : InRange L i) (V : Finset ℕ) (h : i ∉ V)
+    (hz : γ ^ (L + 1) ≠ 0) : γ ^ i * accOf γ L V - witOf γ L i V ≠ γ ^ (L + 1) := by
+  rw [witness_check_iff γ L i hi V]
+  simp only [h, if_false]
+  exact fun e => hz e.symm
+
+theorem valid_passes_check (γ : F) (L i : ℕ) (hi : InRange L i) (V : Finset ℕ) (h : i ∈ V) :
+    γ ^ i * accOf γ L V - witOf γ L i V = γ ^ (L + 1) := by
+  rw [witness_check_iff γ L i hi V]; simp [h]
+
+/-- **issuer-side witness** (returned by `sign_credential_with_revoc`) is `witOf` for the
+valid set after issuance — on demand (`i ∉ V` before) … -/
+theorem issuer_witness_value_on_demand (γ : F) (m : OvfMode) (L i : ℕ) (hL : SizeOk L)
+    (hi : InRange L i) (V : Finset ℕ) (hv : i ∉ V) :
+    (issue ringOps γ m L false (accOf γ L V) i).map (fun r => (r.1, r.2.2))
+      = .ok (accOf γ L (insert i V), witOf γ L i (insert i V)) := by
+  simp only [issue, issueGuard_spec, inRange_guard_false hi, Outcome.guardThen_ok,
+    Bool.false_eq_true, if_false, getIndex_spec m L i hi hL, Outcome.bind_ok, Outcome.map_ok,
+    ringOps_add, ringOps_mul, indexPow_eq]
+  congr 1
+  refine Prod.ext ?_ ?_
+  · simp [accOf, sum_insert hv, add_comm]
+  · simp only [witOf, Finset.erase_insert hv, accOf]
+    rw [Finset.sum_mul]
+    apply Finset.sum_congr rfl
+    intro j _
+    rw [← pow_add]
+
+/-- … and by default (`i ∈ V`, the accumulator is unchanged) -/
+theorem issuer_witness_value_by_default (γ : F) (m : OvfMode) (L i : ℕ) (hL : SizeOk L)
+    (hi : InRange L i) (V : Finset ℕ) (hv : i ∈ V) :
+    (issue ringOps γ m L true (accOf γ L V) i).map (fun r => (r.1, r.2.2))
+      = .ok (accOf γ L V, witOf γ L i V) := by
+  simp only [issue, issueGuard_spec, inRange_guard_false hi, Outcome.guardThen_ok,
+    Bool.false_eq_true, if_false, getIndex_spec m L i hi hL, Outcome.bind_ok, Outcome.map_ok,
+    if_true, ringOps_sub, ringOps_mul, indexPow_eq]
+  congr 1
+  refine Prod.ext rfl ?_
+  simp only [witOf, accOf]
+  rw [← Finset.sum_erase_add V _ hv, add_sub_cancel_right, Finset.sum_mul]
+  apply Finset.sum_congr rfl
+  intro j _
+  rw [← pow_add]
+
+/-- **`Witness::new` from a cumulative delta, issuance on demand**: if the delta's `issued`
+set is the valid set `V ⊆ [1, L]`, the result is `witOf`. -/
+theorem new_witness_value_on_demand (γ : F) (m : OvfMode) (L i : ℕ) (hL : TailsOk L)
+    (hi : InRange L i) (d : Delta F) (hr : ∀ j ∈ d.issued, InRange L j) :
+    witnessNew ringOps γ m L false i d = .ok (witOf γ L i d.issued.toFinset) := by
+  simp only [witnessNew, witnessNewGuard_spec, inRange_guard_false hi, Outcome.guardThen_ok,
+    Bool.false_eq_true, if_false, issuedIndices, ringOps_zero]
+  rw [witnessNewLoop_spec γ m L i hL hi]
+  · congr 1
+    rw [zero_add, witOf]
+    have hnd : ((sortAsc d.issued).filter (· != i)).Nodup :=
+      ((C08.sortAsc_pairwise d.issued).imp (fun h => Nat.ne_of_lt h)).filter _
+    rw [← List.sum_toFinset _ hnd]
+    apply Finset.sum_congr
+    · ext j
+      simp only [List.mem_toFinset, List.mem_filter, C08.sortAsc_mem, bne_iff_ne, ne_eq,
+        mem_erase]
+      tauto
+    · intro _ _; rfl
+  · intro j hj
+    simp only [List.mem_filter, C08.sortAsc_mem, bne_iff_ne, ne_eq] at hj
+    exact ⟨hr j hj.1, hj.2⟩
+
+/-- **`Witness::new`, issuance by default**: the valid set is `[1, L]` minus the delta's
+`revoked` set. -/
+theorem new_witness_value_by_default (γ : F) (m : OvfMode) (L i : ℕ) (hL : TailsOk L)
+    (hi : InRange L i) (d : Delta F) :
+    witnessNew ringOps γ m L true i d = .ok (witOf γ L i (Icc 1 L \ d.revoked.toFinset)) := by
+  simp only [witnessNew, witnessNewGuard_spec, inRange_guard_false hi, Outcome.guardThen_ok,
+    Bool.false_eq_true, if_false, issuedIndices, if_true, ringOps_zero]
+  rw [witnessNewLoop_spec γ m L i hL hi]
+  · congr 1
+    rw [zero_add, witOf]
+    have hnd : (((List.range' 1 L).filter fun j => !setMem j d.revoked).filter (· != i)).Nodup :=
+      ((List.nodup_range' (step := 1)).filter _).filter _
+    rw [← List.sum_toFinset _ hnd]
+    apply Finset.sum_congr
+    · ext j
+      simp only [List.mem_toFinset, List.mem_filter, List.mem_range'_1, Bool.not_eq_true',
+        bne_iff_ne, ne_eq, mem_erase, mem_sdiff, mem_Icc, setMem, List.contains_eq_mem,
+        decide_eq_false_iff_not]
+      constructor
+      · rintro ⟨⟨⟨h1, h2⟩, h3⟩, h4⟩; exact ⟨h4, ⟨h1, by omega⟩, h3⟩
+      · rintro ⟨h4, ⟨h1, h2⟩, h3⟩; exact ⟨⟨⟨h1, by omega⟩, h3⟩, h4⟩
+    · intro _ _; rfl
+  · intro j hj
+    simp only [List.mem_filter, List.mem_range'_1, bne_iff_ne, ne_eq] at hj
+    exact ⟨⟨hj.1.1.1, by have := hj.1.1.2; omega⟩, hj.2⟩
+
+/-- a delta that can follow a state with valid set `V` -/
+structure Applicable (L : ℕ) (V : Finset ℕ) (I R : List ℕ) : Prop where
+  rangeI : ∀ j ∈ I, InRange L j
+  rangeR : ∀ j ∈ R, InRange L j
+  fresh : ∀ j ∈ I, j ∉ V
+  valid : ∀ j ∈ R, j ∈ V
+  disj : ∀ j ∈ I, j ∉ R
+
+theorem sum_updTerm_true (γ : F) (L i : ℕ) (l : List ℕ) (hnd : l.Nodup) :
+    ((l.map (·, true)).map (updTerm γ L i)).sum = ∑ j ∈ l.toFinset.erase i, γ ^ (L + 1 - j + i) := by
+  rw [List.map_map]
+  have : ((updTerm γ L i) ∘ fun j => (j, true)) = fun j => if j = i then 0 else γ ^ (L + 1 - j + i) := by
+    funext j; simp [updTerm]
+  rw [this, ← List.sum_toFinset _ hnd, Finset.sum_ite, Finset.sum_const_zero, zero_add]
+  apply Finset.sum_congr
+  · ext j; simp [and_comm]
+  · intro _ _; rfl
+
+theorem sum_updTerm_false (γ : F) (L i : ℕ) (l : List ℕ) (hnd : l.Nodup) :
+    ((l.map (·, false)).map (updTerm γ L i)).sum = - ∑ j ∈ l.toFinset.erase i, γ ^ (L + 1 - j + i) := by
+  rw [List.map_map]
+  have : ((updTerm γ L i) ∘ fun j => (j, false)) = fun j => if j = i then 0 else - γ ^ (L + 1 - j + i) := by
+    funext j; simp [updTerm]
+  rw [this, ← List.sum_toFinset _ hnd, Finset.sum_ite, Finset.sum_const_zero, zero_add,
+    Finset.sum_neg_distrib]
+  congr 1
+  apply Finset.sum_congr
+  · ext j; simp [and_comm]
+  · intro _ _; rfl
+
+/-- **`Witness::update`**: from `witOf` for `V`, a delta applicable at `V` yields `witOf` for
+the next valid set `(V ∪ issued) \ revoked` — whatever mixture of issues, revocations and
+un-revocations the delta batches. -/
+theorem update_witness_value (γ : F) (m : OvfMode) (L i : ℕ) (hL : TailsOk L) (hi : InRange L i)
+    (V : Finset ℕ) (d : Delta F) (ha : Applicable L V d.issued d.revoked) :
+    witnessUpdate ringOps γ m L i (witOf γ L i V) d
+      = .ok (witOf γ L i ((V ∪ d.issued.toFinset) \ d.revoked.toFinset)) := by
+  simp only [witnessUpdate, witnessUpdateGuard_spec, inRange_guard_false hi, Outcome.guardThen_ok,
+    Bool.false_eq_true, if_false]
+  have hfil : (sortAsc d.issued).filter (fun j => !setMem j (sortAsc d.revoked)) = sortAsc d.issued := by
+    apply List.filter_eq_self.mpr
+    intro j hj
+    have hj' : j ∈ d.issued := (C08.sortAsc_mem j _).mp hj
+    have : j ∉ sortAsc d.revoked := fun h => ha.disj j hj' ((C08.sortAsc_mem j _).mp h)
+    simp [setMem, this]
+  rw [witnessUpdateLoop_spec γ m L i hL hi]
+  · congr 1
+    simp only [updateEntries, hfil, List.map_append, List.sum_append]
+    have hndI : (sortAsc d.issued).Nodup := (C08.sortAsc_pairwise _).imp (fun h => Nat.ne_of_lt h)
+    have hndR : (sortAsc d.revoked).Nodup := (C08.sortAsc_pairwise _).imp (fun h => Nat.ne_of_lt h)
+    rw [sum_updTerm_true γ L i _ hndI, sum_updTerm_false γ L i _ hndR]
+    have hI : (sortAsc d.issued).toFinset = d.issued.toFinset := by
+      ext j; simp [C08.sortAsc_mem]
+    have hR : (sortAsc d.revoked).toFinset = d.revoked.toFinset := by
+      ext j; simp [C08.sortAsc_mem]
+    rw [hI, hR]
+    simp only [witOf]
+    -- finset algebra: ((V ∪ I) \ R).erase i = (V.erase i ∪ I.erase i) \ R.erase i, disjointly
+    have hdisj : Disjoint (V.erase i) (d.issued.toFinset.erase i) := by
+      rw [Finset.disjoint_left]
+      intro a ha1 ha2
+      simp only [mem_erase, List.mem_toFinset] at ha1 ha2
+      exact ha.fresh a ha2.2 ha1.2
+    have hsub : d.revoked.toFinset.erase i ⊆ V.erase i ∪ d.issued.toFinset.erase i := by
+      intro a ha1
+      simp only [mem_erase, List.mem_toFinset] at ha1
+      simp only [mem_union, mem_erase]
+      exact Or.inl ⟨ha1.1, ha.valid a ha1.2⟩
+    have hset : ((V ∪ d.issued.toFinset) \ d.revoked.toFinset).erase i
+        = (V.erase i ∪ d.issued.toFinset.erase i) \ d.revoked.toFinset.erase i := by
+      ext a
+      simp only [mem_erase, mem_sdiff, mem_union, List.mem_toFinset]
+      tauto
+    rw [hset]
+    have h3 := Finset.sum_sdiff (f := fun j => γ ^ (L + 1 - j + i)) hsub
+    have h4 := Finset.sum_union (f := fun j => γ ^ (L + 1 - j + i)) hdisj
+    rw [h4] at h3
+    linear_combination -h3
+  · intro p hp
+    simp only [updateEntries, hfil, List.mem_append, List.mem_map] at hp
+    rcases hp with ⟨j, hj, rfl⟩ | ⟨j, hj, rfl⟩
+    · exact ha.rangeI j ((C08.sortAsc_mem j _).mp hj)
+    · exact ha.rangeR j ((C08.sortAsc_mem j _).mp hj)
+
+/-- **the derivations agree**: the issuance witness updated through a later delta equals the
+witness computed from scratch for the resulting set (on demand; `d'` is any cumulative delta
+whose issued set is that set). -/
+theorem three_derivations_agree (γ : F) (m : OvfMode) (L i : ℕ) (hL : TailsOk L)
+    (hi : InRange L i) (V : Finset ℕ) (d d' : Delta F)
+    (ha : Applicable L V d.issued d.revoked)
+    (hr : ∀ j ∈ d'.issued, InRange L j)
+    (hset : d'.issued.toFinset = (V ∪ d.issued.toFinset) \ d.revoked.toFinset) :
+    witnessUpdate ringOps γ m L i (witOf γ L i V) d = witnessNew ringOps γ m L false i d' := by
+  rw [update_witness_value γ m L i hL hi V d ha, new_witness_value_on_demand γ m L i hL hi d' hr, hset]
+
+/-- **every tail index read lies in `[2, 2L]` and is never `L+1`** (the suppressed one) -/
+theorem update_index_in_range (L j i : ℕ) (hj : InRange L j) (hi : InRange L i) (hne : j ≠ i) :
+    2 ≤ L + 1 - j + i ∧ L + 1 - j + i ≤ 2 * L ∧ L + 1 - j + i ≠ L + 1 := by
+  unfold InRange at hj hi; omega
+
+/-- out-of-range holder index: `Witness::new` / `Witness::update` return `Err` -/
+theorem witness_rejects_bad_holder (γ : F) (m : OvfMode) (L i : ℕ) (hi : ¬ InRange L i)
+    (byDefault : Bool) (ω : F) (d : Delta F) :
+    witnessNew ringOps γ m L byDefault i d = .err ∧ witnessUpdate ringOps γ m L i ω d = .err := by
+  simp [witnessNew, witnessUpdate, witnessNewGuard_spec, witnessUpdateGuard_spec,
+    outOfRange_guard_true hi]
+
+/-! non-vacuity -/
+example : Applicable 3 {1, 2} [3] [1] :=
+  ⟨by simp [InRange], by simp [InRange], by simp, by simp, by simp⟩
+example : TailsOk 32 := by unfold TailsOk; omega
+
 end CL.C09
